@@ -211,7 +211,7 @@ def run(ctx):
         n7 = engine.take_over(ctx, c5.obs, lambda o: o.rule == "C05.1" and o.key.split("|")[-1] in ("table", "answer-applied"), "C04.7")
         ctx.floor("C04.7 obligations taken from the coding chooser", n7, 2)
     except CheckerError as e:
-        ctx.ob("C04.7", "coding-table", "the coding chooser could be evaluated", False, "response.rs", str(e))
+        raise CheckerError("C04.7 (the coding chooser could not be evaluated): %s" % e)
     # ---- C04.4 head templates; head before body
     # (the head writer with the helpers of its file spliced in: the status line and the header lines may have writers of their own)
     import inline
@@ -264,31 +264,57 @@ def run(ctx):
             ok = order == ["ver.0", "ver.1", "status", "reason"]
             descr = order
         ctx.ob("C04.4", "%s|status-line-arguments" % wmh.id, "filled with the version's two numbers, the numeric status and its reason phrase, in that order", ok, g.loc(status[0][0]), str(descr))
-    lits = [x[1] for x in tpls if x[1] and x[1] != (status[0][1] if status else None)]
-    ctx.ob("C04.4", "%s|separators" % wmh.id, "headers are separated by `: ` and ended by CRLF, and the head ends with an empty line", sorted(map(tuple, lits)) == sorted([(": ",), ("\r\n",), ("\r\n",)]), g.file, str(lits))
-    # the terminating CRLF is on every successful path
-    finals = [bb for bb, tpl, x in tpls if tpl == ["\r\n"] and not g.in_loop(bb)]
-    # on every abstract path that can return success, the last thing written is that blank line
-    ok = len(finals) == 1
-    n_ok = 0
-    detail = None
-    if ok:
-        for p in absint.explore(g, 0, None, max_visits=2, max_paths=4000):
-            if p.end[0] != "return":
+    # ---- the head as a byte stream: on every abstract path of the head writer that returns success, what was written, piece by piece
+    # (a literal of a `write!` template, a constant byte string handed to write / write_all, or something computed = ARG), is the status
+    # line, any number of `ARG: ARG CRLF` lines and the blank line -- however the pieces are divided over write calls
+    def piece_of(v):
+        x = v
+        for _ in range(8):
+            if isinstance(x, tuple) and x and x[0] in ("ref*", "deref", "constref") and len(x) > 1 and isinstance(x[1], tuple):
+                x = x[1]
+            elif isinstance(x, tuple) and x and x[0] == "cast" and isinstance(x[-1], tuple):
+                x = x[-1]
+            else:
+                break
+        c = absint.const_of(x)
+        if isinstance(c, bytes):
+            return c.decode("latin-1")
+        if isinstance(c, str):
+            return c
+        return None
+    ARG = "\x00"
+    n_ok, bad_stream = 0, []
+    for p in absint.explore(g, 0, None, max_visits=3, max_paths=6000, deep_events=True):
+        if p.end[0] != "return":
+            continue
+        r = p.ret()
+        if r[0] == "agg" and r[2] == "Err":
+            continue
+        # (a path that returns what an earlier write answered, after that write was seen to fail, is an error path)
+        hc = absint.head_call(r)
+        if hc is not None and any(c and c[0] == "variant" and c[2] in ("Err", "Break") and absint.mentions_call(c[3], hc) for bb, c in p.conds):
+            continue
+        n_ok += 1
+        stream = ""
+        for e in p.calls():
+            if not ((e[6] or "").startswith("std::io::Write::write") or re.search(r"Write>::write(_all|_fmt)?$", e[2])):
                 continue
-            r = p.ret()
-            if r[0] == "agg" and r[2] == "Err":
-                continue
-            # (a path that returns what an earlier write answered, after that write was seen to fail, is an error path)
-            hc = absint.head_call(r)
-            if hc is not None and any(c and c[0] == "variant" and c[2] in ("Err", "Break") and absint.mentions_call(c[3], hc) for bb, c in p.conds):
-                continue
-            n_ok += 1
-            writes = [e for e in p.calls() if (e[6] or "").startswith("std::io::Write::write") or re.search(r"Write>::write(_all|_fmt)?$", e[2])]
-            if not writes or writes[-1][0] != finals[0]:
-                ok = False
-                detail = "a successful path whose last write is not the blank line"
-    ctx.ob("C04.4", "%s|blank-line-always" % wmh.id, "every successfully written head ends with the blank line", ok and n_ok > 0, g.file, detail)
+            if (e[6] or "").endswith("write_fmt") or e[2].endswith("write_fmt"):
+                tpl, _x = fmt_template(g, g.term(e[0]))
+                if tpl is None:
+                    stream += ARG
+                else:
+                    stream += "".join(ARG if t_ == "ARG" else t_ for t_ in tpl)
+            else:
+                a = (e[8] or e[3])
+                lit = piece_of(a[1]) if len(a) > 1 else None
+                stream += ARG if lit is None else lit
+        stream = re.sub("\x00+", ARG, stream)
+        if not re.match("^HTTP/\x00\\.\x00 \x00 \x00\r\n(\x00: \x00\r\n)*\r\n$", stream):
+            bad_stream.append(stream.replace(ARG, "<ARG>").replace("\r\n", "<CRLF>"))
+    ctx.ob("C04.4", "%s|separators" % wmh.id, "headers are separated by `: ` and ended by CRLF, and the head ends with an empty line", n_ok > 0 and not bad_stream, g.file, None if not bad_stream else str(sorted(set(bad_stream))[:3]))
+    ctx.ob("C04.4", "%s|blank-line-always" % wmh.id, "every successfully written head ends with the blank line", n_ok > 0 and not [b_ for b_ in bad_stream if not b_.endswith("<CRLF><CRLF>")], g.file,
+           None if not bad_stream else str(sorted(set(bad_stream))[:3]))
     return {}
 
 
